@@ -450,3 +450,79 @@ def xcheck_derived_texts():
         if isinstance(getattr(V, "_current", None), list) and V._current and V._current[-1] is st:
             V._current.pop()
     return (not bad, f"{len(bad)} mismatches: {bad[:3]}" if bad else "derived text terms agree with CPython on the sample")
+
+
+# ---------------------------------------------------------------------------------------------
+# str.find / bytes.find with a one-element needle (added for C03: `text.find(nl, idx)` in calculate_text_segments)
+
+
+def find_spec(s, c, start, r):
+    """Executable specification of `r == s.find(c, start)` for a one-element needle c (plain str / bytes values):
+    CPython normalises start like a slice bound (negative: + len, clamped at 0); the result is the least index >= start
+    holding c, or -1 when there is none (in particular when start > len)."""
+    n = len(s)
+    s0 = max(start + n, 0) if start < 0 else start
+    hits = [k for k in range(min(s0, n), n) if s[k : k + 1] == c] if s0 <= n else []
+    return r == (hits[0] if hits else -1)
+
+
+def text_find(st, t, needle, start=0):
+    """Model of `t.find(needle, start)` on a modelled text, needle of exactly one element: a fresh integer r with
+        r == -1  and no element of t[start':] equals the needle,   or
+        start' <= r < len(t), t[r] == needle and no element of t[start':r] equals it
+    (start' = start normalised as CPython does; the two "no element ... equals" parts are lazily instantiated
+    universal facts).  Cross-checked against CPython by `xcheck_find()`."""
+    nd = as_text(needle)
+    if nd is None or nd.kind != t.kind:
+        raise Unsupported("find: needle of another kind than the text")
+    if not (isinstance(nd.length, int) and nd.length == 1):
+        raise Unsupported("find with a needle that is not a single element")
+    c = nd.get(0)
+    n = t.length
+    start = st.force(start)
+    s0 = V.ite(V._cmp("<", start, 0), V.imax(start + n, 0), start) if V.is_sym(start) else (start if start >= 0 else V.imax(start + n, 0))
+    r = st.fresh_int("find")
+    differs = lambda k: V.neg(elem_eq(t.get(k), c))  # noqa: E731
+    hit = V.both(V._cmp("<=", s0, r), V._cmp("<", r, n), elem_eq(t.get(r), c))
+    st.assume(V.either(r == -1, hit))
+    # "no element before the result (none at all when it is -1) equals the needle": recorded as a lazily instantiated
+    # universal fact (values.lazy_forall; `values.instantiate(k...)` asserts its instances at the indices in play), so
+    # that path conditions stay quantifier-free (DESIGN 3.7)
+    V.lazy_forall(s0, V.ite(r == -1, n, r), differs)
+    return r
+
+
+def xcheck_find():
+    """`find_spec` agrees with CPython's str.find / bytes.find for every text over a two-letter alphabet up to length 4,
+    every start in -6..6 and every candidate result; and the SMT model `text_find` built on constant texts admits
+    exactly CPython's result (checked with z3 on a sample)."""
+    import itertools
+
+    bad = []
+    for kind, alpha, c in (("str", "a\n", "\n"), ("bytes", b"a\n", b"\n")):
+        letters = [alpha[i : i + 1] for i in range(len(alpha))]
+        for n in range(5):
+            for tup in itertools.product(letters, repeat=n):
+                s = (b"" if kind == "bytes" else "").join(tup)
+                for start in range(-6, 7):
+                    want = s.find(c, start)
+                    for r in range(-2, n + 2):
+                        if find_spec(s, c, start, r) != (r == want):
+                            bad.append((s, start, r, want))
+    from .engine import Config, Explorer, State
+
+    for s, start in (("a\nb\n", 0), ("a\nb\n", 2), ("ab", 0), ("", 0), ("\n", -1), ("ab\n", 5), ("a\nb", -2)):
+        ex = Explorer(Config())
+        st = State(ex, [])
+        V._current.append(st)
+        try:
+            r = text_find(st, SConst(s), "\n", start)
+            want = s.find("\n", start)
+            V.instantiate(*range(len(s) + 1))  # the lazily recorded "no earlier occurrence" facts, at every index
+            ok_want, _ = st._check(V._z(r) == want, 2000)
+            other, _ = st._check(V._z(r) != want, 2000)
+            if ok_want != z3.sat or other != z3.unsat:
+                bad.append(("smt", s, start, want, str(ok_want), str(other)))
+        finally:
+            V._current.pop()
+    return (not bad, f"{len(bad)} mismatches: {bad[:3]}" if bad else "find model agrees with CPython on the scope")
